@@ -303,3 +303,84 @@ Proof.
   clear -B. induction cs as [|c cs IH]; [constructor|].
   cbn [concat] in B. apply app_eq_nil in B. destruct B. constructor; auto.
 Qed.
+
+(** * The receiving side: whatever is added is stored once, in order (C18) *)
+
+(** The pieces accepted by the [add]s of a run, in order (ghost instrumentation of [wrun]). *)
+Fixpoint add_pieces (w : window) (ops : list wop) : list bytes :=
+  match ops with
+  | [] => []
+  | o :: r =>
+    let w1 := fst (wstep w o) in
+    match o with
+    | OpAdd d => match add w d with WOk _ => d :: add_pieces w1 r | WErr _ => add_pieces w1 r end
+    | _ => add_pieces w1 r
+    end
+  end.
+
+Definition no_remove (ops : list wop) : Prop := Forall (fun o => match o with OpRemove _ => False | _ => True end) ops.
+
+(** What the window holds for its file: the bytes written so far followed by the buffered pieces. *)
+Definition stored_then_buffered (w : window) : bytes := written_bytes (w_file w) ++ concat (w_elems w).
+
+Lemma wstep_write_side : forall w o, WInv w -> f_mode (w_file w) = FWrite ->
+  match o with OpRemove _ => False | _ => True end ->
+  f_mode (w_file (fst (wstep w o))) = FWrite /\
+  stored_then_buffered (fst (wstep w o)) =
+    stored_then_buffered w ++
+    match o with OpAdd d => match add w d with WOk _ => d | WErr _ => [] end | _ => [] end.
+Proof.
+  intros w o Hw Hm Ho. destruct o as [| |k|d]; cbn [wstep]; [| |contradiction|].
+  - rewrite fill_writeonly by assumption. destruct (_ =? _); cbn [fst]; rewrite app_nil_r; auto.
+  - destruct (empty_appends w ltac:(congruence)) as (w' & -> & A & B & _ & _ & M). cbn [fst].
+    split; [congruence|]. unfold stored_then_buffered. rewrite A, B. cbn [concat]. rewrite !app_nil_r. reflexivity.
+  - destruct (N.eq_dec (lenN (w_elems w)) (w_size w)) as [E|E].
+    + rewrite (proj1 (add_exact w d Hw) E). cbn [fst]. rewrite app_nil_r. auto.
+    + destruct Hw as [H1 H2]. rewrite (proj2 (add_exact w d (conj H1 H2))) by lia. cbn [fst].
+      split; [exact Hm|]. unfold stored_then_buffered. cbn [w_file w_elems].
+      rewrite concat_app. cbn [concat]. rewrite app_nil_r, app_assoc. reflexivity.
+Qed.
+
+(** For every sequence of [add] / [empty] / [fill] calls on a created file: the bytes written
+    followed by the pieces still buffered are exactly what was there before followed by the
+    accepted pieces in the order of their [add]s - nothing lost, nothing twice, nothing else. *)
+Theorem adds_are_stored_in_order : forall ops w, WInv w -> f_mode (w_file w) = FWrite -> no_remove ops ->
+  stored_then_buffered (fst (wrun w ops)) = stored_then_buffered w ++ concat (add_pieces w ops).
+Proof.
+  induction ops as [|o ops IH]; intros w Hw Hm Hn; cbn [wrun add_pieces]; [cbn [fst concat]; rewrite app_nil_r; reflexivity|].
+  inversion Hn as [|o' ops' Ho Hn']; subst o' ops'.
+  destruct (wstep w o) as [w1 ob] eqn:S1. destruct (wrun w1 ops) as [w2 obs] eqn:R. cbn [fst].
+  assert (E1 : w1 = fst (wstep w o)) by (rewrite S1; reflexivity).
+  assert (E2 : w2 = fst (wrun w1 ops)) by (rewrite R; reflexivity).
+  assert (Hw1 : WInv w1) by (rewrite E1; apply wstep_inv; exact Hw).
+  destruct (wstep_write_side w o Hw Hm Ho) as (K1 & K2). rewrite <- E1 in K1, K2.
+  specialize (IH w1 Hw1 K1 Hn'). rewrite <- E2 in IH. rewrite IH, K2.
+  destruct o as [| |k|d]; try (rewrite app_nil_r; reflexivity).
+  destruct (add w d); [cbn [concat]; rewrite app_assoc; reflexivity | rewrite app_nil_r; reflexivity].
+Qed.
+
+(** Consequence for a run that ends with a successful [empty]: the file holds exactly the accepted pieces. *)
+Corollary adds_then_empty_file : forall ops size chunk, size <= 65535 -> no_remove ops ->
+  let w := fst (wrun (window_new size chunk file_created) (ops ++ [OpEmpty])) in
+  w_elems w = [] /\ written_bytes (w_file w) = concat (add_pieces (window_new size chunk file_created) (ops ++ [OpEmpty])).
+Proof.
+  intros ops size chunk Hs Hn w.
+  assert (Hw0 : WInv (window_new size chunk file_created)) by (apply window_new_inv; exact Hs).
+  assert (Hn' : no_remove (ops ++ [OpEmpty])) by (apply Forall_app; split; [exact Hn | repeat constructor]).
+  pose proof (adds_are_stored_in_order (ops ++ [OpEmpty]) _ Hw0 eq_refl Hn') as H. fold w in H.
+  assert (E : w_elems w = []).
+  { subst w. clear H Hn'. assert (Hm0 : f_mode (w_file (window_new size chunk file_created)) = FWrite) by reflexivity.
+    generalize dependent (window_new size chunk file_created).
+    induction ops as [|o ops IH]; intros w0 Hw0 Hm0.
+    - cbn [app wrun wstep].
+      destruct (empty_appends w0 ltac:(congruence)) as (w' & -> & A & _). exact A.
+    - inversion Hn as [|o' ops' Ho Hn']; subst o' ops'.
+      cbn [app wrun]. destruct (wstep w0 o) as [w1 ob] eqn:S1.
+      destruct (wrun w1 (ops ++ [OpEmpty])) as [w2 obs] eqn:R. cbn [fst].
+      replace w2 with (fst (wrun w1 (ops ++ [OpEmpty]))) by (rewrite R; reflexivity).
+      assert (E1 : w1 = fst (wstep w0 o)) by (rewrite S1; reflexivity).
+      apply IH; [exact Hn' | rewrite E1; apply wstep_inv; exact Hw0 |
+                 rewrite E1; apply (wstep_write_side w0 o Hw0 Hm0 Ho)]. }
+  split; [exact E|]. unfold stored_then_buffered in H. rewrite E in H. cbn [concat window_new w_file w_elems file_created] in H.
+  unfold written_bytes at 2 in H. cbn [f_written rev concat app] in H. rewrite app_nil_r in H. exact H.
+Qed.
